@@ -26,9 +26,9 @@ PROGS_QUICK = [ESC + "simple-escape", ESC + "builtins-escape", ESC + "escape-loc
 PROGS_THOROUGH = PROGS_QUICK + [ESC + "trivial", TAINT + "closures", TAINT + "example1", TAINT + "fields",
                                 TAINT + "interfaces", TAINT + "panics", TAINT + "selects"]
 OPTS = {"quick": ["-pairs", "40", "-triples", "20", "-random", "30", "-perms", "5", "-perm-mono", "1", "-mono-cap", "30",
-                  "-weak-transfer", "180"],
+                  "-weak-transfer", "900"],
         "thorough": ["-pairs", "400", "-triples", "200", "-random", "300", "-perms", "12", "-perm-mono", "4", "-mono-cap", "0",
-                     "-weak-transfer", "1200"]}
+                     "-weak-transfer", "6000"]}
 
 
 def blocks(path):
